@@ -27,6 +27,7 @@ func c07ProbeRules(c *core.Ctx, root *packages.Package) {
 	c07Forwarder(c, root)
 	c07LoopbackErr(c, root)
 	c07ForkEdge(c, root)
+	c07QueueHandoff(c, root)
 	if ep := c.P.Pkg("edge"); ep != nil {
 		c07Readers(c, ep)
 	} else {
